@@ -351,3 +351,16 @@ Proof. eexists. eexists. split; [vm_compute; reflexivity|discriminate]. Qed.
 
 Example toy_registry_law : registry_consumes_all toy_registry.
 Proof. apply default_registry_consumes_all; apply raw_consumes_all. Qed.
+
+Example store_write_error_hyp_sat :
+  toy_registry (lp_codec toy_lp) = Some raw_codec /\ toy_ok (lp_mhtype toy_lp) = true /\
+  c_werr_ignored raw_codec = false /\ c_enc raw_codec (DBytes [1; 2; 3]) = Some [[1; 2; 3]] /\
+  1 < lenN (concat [[1; 2; 3]]) /\
+  store toy_ok toy_hash toy_registry memstore_kind
+        {| w_open_err := false; w_cap := Some 1; w_commit_err := false |} [] toy_lp (DBytes [1; 2; 3])
+  = (sfail EIo, []).
+Proof. vm_compute. repeat split; reflexivity. Qed.
+
+Example io_read_hyp_sat :
+  load_any toy_ok toy_hash toy_registry FFill false (RStream [[9]; [8; 7]] TErr) toy_link = lfail EIo.
+Proof. vm_compute. reflexivity. Qed.
